@@ -1,4 +1,5 @@
 import IpamVerif.System
+import IpamVerif.Restart
 import Driver.Util
 /-! `hist` protocol: whole-controller histories. -/
 namespace Drv
@@ -125,5 +126,16 @@ def histStep (s : Sys) (line : String) : Sys × String :=
     | some e =>
       let (s', o) := step s e
       (s', obsStr o s')
+
+/-- membership in the fragment of the restart theorem (`Restart.Frag3`), decided by the executable test
+`Restart.frag3B` (proved sound): one line per operation, `in` while every event of the history so far is inside -/
+def fragStep (st : Sys × Bool) (line : String) : (Sys × Bool) × String :=
+  if line.startsWith "hist " then ((Sys.init, true), "hist")
+  else if line.startsWith "mark " then (st, line)
+  else match parseEv line with
+    | none => ((st.1, false), "out")
+    | some e =>
+      let inside := st.2 && Ipam.Restart.frag3B st.1 e
+      (((step st.1 e).1, inside), if inside then "in" else "out")
 
 end Drv
